@@ -27,7 +27,7 @@ pub fn worker_main(space: &str, handler: &dyn Fn(&str, u64) -> Value) -> i32 {
         setrlimit(RLIMIT_AS, &lim);
     }
     let proto_fd = unsafe { dup(1) };
-    let scratch_path = format!("/verif/.cache/worker-stdout-{}.tmp", std::process::id());
+    let scratch_path = format!("{}/.cache/worker-stdout-{}.tmp", verif_dir(), std::process::id());
     let scratch = std::fs::OpenOptions::new().create(true).write(true).truncate(true).open(&scratch_path).expect("scratch");
     unsafe {
         dup2(scratch.as_raw_fd(), 1);
